@@ -44,7 +44,9 @@ Lemma rj_decode_body t cps : Forall scalar cps -> rj_decode t (rj_body t cps) = 
 Proof.
   intros H. unfold rj_decode. pose proof (bytes_units_inv t cps H) as E.
   destruct (rj_scheme t) as [w e] eqn:Es. cbn [fst snd] in E. rewrite E.
-  rewrite (transcode_exact' w W32 ThrowError [] cps [] H). cbn [r_code r_out app]. rewrite encs32_id. reflexivity.
+  rewrite (transcode_exact' w W32 ThrowError [] cps [] H). cbn [r_code r_out app]. rewrite encs32_id.
+  assert (Hb : forallb scalarb cps = true) by (apply forallb_forall; intros x Hx; exact (proj1 (Forall_forall _ _) H x Hx)).
+  rewrite Hb. reflexivity.
 Qed.
 
 (* ================================================================== detection on four explicit bytes *)
